@@ -698,6 +698,8 @@ def check_history(inp):
             continue
     skip = set(inp.get("skip", []))
     calls = [c for c in calls if c[0] not in skip]
+    for q, (a, k) in calls:
+        k.update((inp.get("kw") or {}).get(q, {}))       # non-default metric keywords handed to evaluate()
     iso = []
     for q, (a, k) in calls:
         a2, k2 = copy.deepcopy((a, k))
@@ -778,9 +780,38 @@ def _gen_history_module(module):
 
 
 CHECKERS = {q: check_call for q in public_functions()}
+# evaluate() of several tasks in one process, each with a non-default keyword of one of ITS metric functions: the
+# keyword routing of one task must not depend on which other tasks (with same-named metrics) ran before
+EVAL_KW = {
+    "onset.evaluate": [{"window": 0.01}, {"window": 0.2}],
+    "beat.evaluate": [{"f_measure_threshold": 0.01}, {"cemgil_sigma": 0.01}, {"p_score_threshold": 0.05}],
+    "segment.evaluate": [{"beta": 2.0}, {"trim": True}, {"frame_size": 0.5}],
+    "tempo.evaluate": [{"tol": 0.3}],
+    "transcription.evaluate": [{"onset_tolerance": 0.01}, {"offset_ratio": 0.5}, {"pitch_tolerance": 5.0}],
+    "transcription_velocity.evaluate": [{"velocity_tolerance": 0.5}, {"onset_tolerance": 0.01}],
+    "melody.evaluate": [{"cent_tolerance": 10}],
+    "multipitch.evaluate": [{"window": 0.1}],
+    "alignment.evaluate": [{"window": 0.05}],
+    "hierarchy.evaluate": [{"window": 5.0}, {"frame_size": 0.5}],
+    "pattern.evaluate": [{"tol": 0.5}],
+}
+
+
+def _gen_history_evalkw(rng, tier, shard, nshards, boost):
+    quals = sorted(q for q in EVAL_KW if q in public_functions() and q not in KNOWN_IMPURE)
+    n = (16 if tier == "quick" else 400) * boost
+    for i in range(n):
+        if i % nshards != shard:
+            continue
+        fns = rng.sample(quals, rng.randint(2, min(5, len(quals))))
+        yield {"fns": fns, "seed": rng.randint(0, 2 ** 20), "kw": {q: rng.choice(EVAL_KW[q]) for q in fns}}
+
+
 CHECKERS["history"] = check_history
+CHECKERS["history:evaluate-keywords"] = check_history
 ORACLES = {q: _gen_for(q) for q in public_functions()}
 ORACLES["history"] = _gen_history
+ORACLES["history:evaluate-keywords"] = _gen_history_evalkw
 for _m in sorted({q.split(".")[0] for q in public_functions()} - {"separation"}):
     CHECKERS["history:" + _m] = check_history
     ORACLES["history:" + _m] = _gen_history_module(_m)
